@@ -14,7 +14,7 @@ PROPERTY = "C11"
 RULE = ("roundtrip: group elements from the C02 generators (angles 0, pi, pi+-{1e-12..1e-3}, about coordinate axes / face and "
         "space diagonals / random axes, both quaternion signs; scales 10^[-3,3]; translations to 1e3; batches; both dtypes) -> "
         "X.matrix() -> mat2SO3/mat2SE3/mat2Sim3/mat2RxSO3/from_matrix on every accepted layout (3x3, 3x4, 4x4; sliced or padded) "
-        "with check=True and check=False: the result's reference matrix equals the input (32 eps s), unit quaternion (8 eps), same "
+        "with check=True and check=False: the result's reference matrix equals the input (32 eps s), unit quaternion (16 eps), same "
         "scale (32 eps rel), correct ltype/shape, and never raises. The extraction branch (recomputed by the harness from the "
         "diagonal) is recorded; all four are populated.  euler: batches (lshape rank 0..2) of angle triples - principal ranges, ANY "
         "real angles (several turns, both signs, k pi/2 +- {0,1e-9,1e-4,0.03}) and pitches with 1-|sin pitch| = k eps_arg, "
@@ -122,8 +122,8 @@ class RoundTrip(Sub):
                 continue
             ty, qy, sy = R.split_group(lt, y)
             qn = abs(float(np.linalg.norm(qy)) - 1)
-            rec.notes["qn"] = max(rec.notes.get("qn", 0), qn / (8 * eps))
-            rec.check(qn <= 8 * eps, "quatnorm:%s:%s" % (lt, dtype), lambda: "| |q|-1 | = %.3g for X=%s (branch %s)" % (qn, it, br))
+            rec.notes["qn"] = max(rec.notes.get("qn", 0), qn / (16 * eps))
+            rec.check(qn <= 16 * eps, "quatnorm:%s:%s" % (lt, dtype), lambda: "| |q|-1 | = %.3g for X=%s (branch %s)" % (qn, it, br))
             want = Mn[i].copy()
             if layout == "3x3" or lt in ("SO3", "RxSO3"):
                 want[:3, 3] = 0
